@@ -280,18 +280,35 @@ ExactRebuild == \A i \in 1..Len(st) :
 
 IsTick == steps' = steps + 1 /\ st' # st /\ blocks' = blocks /\ \A i \in 1..Len(st) : st'[i].exp = st[i].exp
 \* missing and not timed out => keeps waiting; it is never requested or dropped early
-Waits == [][\A i \in 1..Len(st) :
-              (st[i].phase = "pend" /\ ~st[i].exp /\ alive') => st'[i].phase \in {"pend", "posted"}]_vars
+WaitsA == \A i \in 1..Len(st) :
+              (st[i].phase = "pend" /\ ~st[i].exp /\ alive') => st'[i].phase \in {"pend", "posted"}
 \* timed out => the next iteration removes it: built or requested from the sender
-TimeoutRequests == [][\A i \in 1..Len(st) :
-              (IsTick /\ alive' /\ st[i].phase = "pend" /\ st[i].exp) => st'[i].phase \in {"posted", "req"}]_vars
+TimeoutRequestsA == \A i \in 1..Len(st) :
+              (IsTick /\ alive' /\ st[i].phase = "pend" /\ st[i].exp) => st'[i].phase \in {"posted", "req"}
 \* every true transaction present => the next iteration (or the receipt itself) posts the block
 TruePresent(i) == \A p \in 0..(blocks[i].n - 1) :
                     (st[i].c[p + 1].k = "nil" /\ HashAt(blocks[i], p) # 0) =>
                         Answer(HashAt(blocks[i], p)) = TruthCell(blocks[i], p).k
-ArrivalBuilds == [][\A i \in 1..Len(st) :
+ArrivalBuildsA == \A i \in 1..Len(st) :
               (IsTick /\ alive' /\ st[i].phase = "pend" /\ Genuine(blocks[i]) /\ st[i].tr /\ TruePresent(i))
-                 => st'[i].phase = "posted"]_vars
+                 => st'[i].phase = "posted"
+\* a genuine block whose true transactions are all in the pool is posted at receipt
+RecvBuildsA == (Len(blocks') = Len(blocks) + 1 /\ alive') =>
+                 LET i == Len(blocks') IN
+                 (Genuine(blocks'[i]) /\ \A p \in 1..(blocks'[i].n - 1) :
+                       HashAt(blocks'[i], p) # 0 => Answer(HashAt(blocks'[i], p)) = TruthCell(blocks'[i], p).k)
+                    => st'[i].phase = "posted"
 \* final states are only left by nothing
-Terminal == [][(~alive \/ probed) => UNCHANGED view]_vars
+TerminalA == (~alive \/ probed) => UNCHANGED view
+ActionProps == WaitsA /\ TimeoutRequestsA /\ ArrivalBuildsA /\ RecvBuildsA /\ TerminalA
+
+Waits == [][WaitsA]_vars
+TimeoutRequests == [][TimeoutRequestsA]_vars
+ArrivalBuilds == [][ArrivalBuildsA]_vars
+RecvBuilds == [][RecvBuildsA]_vars
+Terminal == [][TerminalA]_vars
+
+\* the same action properties checked transition by transition (fast path used by the MC configs)
+CheckedNext == Next /\ Assert(ActionProps, "an action property of P2PRecv is violated")
+CheckedSpec == Init /\ [][CheckedNext]_vars
 =============================================================================
